@@ -208,6 +208,7 @@ def check_property(pid, tier, seed):
         if u["status"] == "fail":
             for f in u["failed"]:
                 f.setdefault("oid", f["msg"].split(":")[0].strip())
+            u["all_failed"] = list(u["failed"])
             other = [f for f in u["failed"] if not mine_u(u, f["oid"])]
             u["failed"] = [f for f in u["failed"] if mine_u(u, f["oid"])]
             if other:
@@ -253,7 +254,19 @@ def check_property(pid, tier, seed):
 
     # evidence
     n_obl = sum(len(u["obligations"]) for u in units if not u.get("bounded"))
-    n_dis = sum(len(u["obligations"]) for u in units if not u.get("bounded") and u["status"] == "ok")
+    def _discharged(u):
+        if u.get("bounded"):
+            return 0
+        if u["status"] == "ok":
+            return len(u["obligations"])
+        # Verus checks each postcondition clause on its own: when only named clauses fail (no body-level
+        # `.safety` failure, after which later facts would rest on a failed assertion) the others stand
+        if u["backend"].startswith("verus") and u["status"] in ("fail", "known-finding"):
+            fo = set(f.get("oid") for f in u.get("all_failed", u.get("failed", [])))
+            if fo and not any(o.endswith(".safety") for o in fo):
+                return len([o for o in u["obligations"] if o["id"] not in fo])
+        return 0
+    n_dis = sum(_discharged(u) for u in units)
     bounded_units = [dict(unit=u["unit"], bound=u["bounded"], status=u["status"],
                           obligations=[o["id"] for o in u["obligations"]]) for u in units if u.get("bounded")]
     n_bobl = sum(len(b["obligations"]) for b in bounded_units)
